@@ -24,9 +24,13 @@ def patch_time(loop: VLoop) -> None:
     import bellows.ash
     import bellows.ezsp.protocol
 
+    from mc import vclock
+
+    vclock.set_clock(loop)   # time.monotonic() itself is virtual on this thread (covers `from time import monotonic` and new modules)
     vt = VTime(loop)
-    bellows.ash.time = vt
-    bellows.ezsp.protocol.time = vt
+    for mod in (bellows.ash, bellows.ezsp.protocol):
+        if hasattr(mod, "time"):
+            mod.time = vt
 
 
 class FakeTransport:
